@@ -824,10 +824,10 @@ def plan_C13(tier):
         toks = [(r, n) for r, n in toks if n.children[0].kind in ("I8", "D", "S2", "B2", "I1") and r == 2]
     for root, node in c13 + toks:
         qs.append(shape_print_query(13, 1, node, root, tcap=40, timeout=1500))
-    ns = (2, 5, 6) if tier == "quick" else (2, 5, 6, 7, 8)
+    ns = (2, 5) if tier == "quick" else (2, 5, 6, 7, 8)
     for n in ns:
         for root in (1, 2):
-            if tier == "quick" and root == 2 and n == 6:
+            if tier == "quick" and root == 2 and n == 5:
                 continue
             qs.append(print_query(13, 1, n, 2, root))
     if tier == "quick":
@@ -848,15 +848,19 @@ def plan_C13(tier):
 def plan_C14(tier):
     qs = []
     for root, node in print_shapes(tier):
+        if tier == "quick" and node.children and node.children[0].kind in ("I8", "I4", "D") and len(node.children) == 1:
+            continue            # 20-digit / 66-character formatting loops: thorough only
         qs.append(shape_print_query(14, 2, node, root, tcap=64))
         qs.append(shape_print_query(14, 3, node, root, tcap=64))
-    ns = (5, 6, 7) if tier == "quick" else (5, 6, 7, 8, 9, 10)
+    ns = (5, 6) if tier == "quick" else (5, 6, 7, 8, 9, 10)
     for n in ns:
         for root in (1, 2):
             if root == 2 and n > 8:
                 continue
+            if tier == "quick" and root == 2 and n == 6:
+                continue
             qs.append(print_query(14, 2, n, 2, root, tcap=48))
-            if tier != "quick" or n <= 6:
+            if tier != "quick" or n <= 5:
                 qs.append(print_query(14, 3, n, 2, root, tcap=48))
     if tier == "quick":
         # the smallest document with a sibling after a nested empty object needs 10 bytes: {"":{},"a":true}
